@@ -404,12 +404,18 @@ def scatter_cases(draw):
         data = rng.normal(size=(frames, 2, ns)) + 1j * rng.normal(size=(frames, 2, ns))
     else:
         data = rng.normal(size=(frames, 2, ns)).astype(ddt)
-    return {"mask": mask, "data": data}
+    return {"mask": mask, "data": data, "all_valid": draw(st.integers(0, 5)) == 0}
 
 
 def scatter_body(ctx, case):
     _, wfslib = aot()
     mask, data = case["mask"], case["data"]
+    if case.get("all_valid"):
+        # every sub-aperture valid (a full square sensor): the map is then just the data in another shape
+        mask = np.ones_like(mask)
+        nv = int(mask.size)
+        data = np.ascontiguousarray(np.resize(data, (data.shape[0], 2, nv)).astype(data.dtype))
+        ctx.classes["all_sub_apertures_valid"] += 1
     m0, d0 = mask.copy(), data.copy()
     out = wfslib.make_subaps_2d(data, mask)
     ctx.case(case, nontrivial=bool(0 < (mask == 1).sum() < mask.size and data.shape[0] >= 2),
@@ -421,6 +427,8 @@ def scatter_body(ctx, case):
     sel = mask == 1
     ctx.equal(out[:, :, sel], data, "make_subaps_2d(data, m)[:, :, m == 1] == data")
     ctx.require(not np.any(out[:, :, ~sel]), "make_subaps_2d non-zero outside the mask")
+    # the map is a new array: the caller refills its slope buffer in place for the next frame, the map of this frame stays
+    ctx.require(not np.shares_memory(out, data), "make_subaps_2d returned a view of the slope array it was given (mask %s, %d of %d valid)" % (mask.shape, int(sel.sum()), mask.size))
     # history: the caller edits the SAME mask array in place (moves one sub-aperture) and calls again
     on, off = np.argwhere(mask == 1), np.argwhere(mask != 1)
     if len(on) and len(off):
